@@ -50,8 +50,10 @@ Definition meas_eqb (a b : meas) : bool :=
    returns (relative to the start of the round; None = never) and with what. *)
 Record clock := { c_done : option Z; c_res : meas }.
 
-(* One round: deadline of the context (relative to the start of the call),
-   the clocks, the caller's slice as it is before the call. *)
+(* One round: the instant at which the context's Done channel closes (relative to the
+   start of the call) -- its deadline, or the instant of an explicit cancel if that comes
+   first or if there is no deadline ("deadline" below always means this instant) --, the
+   clocks, the caller's slice as it is before the call. *)
 Record scen := { s_deadline : Z; s_clocks : list clock; s_ms0 : list meas }.
 
 (* a context that has already expired and a call that returns at once both
@@ -304,6 +306,28 @@ Fixpoint guard_ok_from (earlier : list gobs) (l : list gobs) : bool :=
       && guard_ok_from (earlier ++ [o]) r
   end.
 Definition C16_guard_ok (l : list gobs) : bool := guard_ok_from [] l.
+
+(* The same clause for calls that are made CONCURRENTLY (several goroutines calling at the
+   same instant): the order in which the calls reached the guard is not observable, so the
+   oracle is independent of the order of the list.  No two calls that returned may have been
+   in progress at the same time; a refused call needs a call that was in progress (or just
+   returning) at that instant; calls with equal lengths either return or are refused as busy,
+   calls with unequal lengths are neither. *)
+Definition overlap (p q : gobs) : bool :=
+  (go_out p =? 0) && (go_out q =? 0) && (go_start p <? go_ret q) && (go_start q <? go_ret p).
+Fixpoint pairwise_apart (l : list gobs) : bool :=
+  match l with
+  | [] => true
+  | o :: r => forallb (fun q => negb (overlap o q)) r && pairwise_apart r
+  end.
+Definition refused_has_cause (l : list gobs) (o : gobs) : bool :=
+  if go_lens o && (go_out o =? 2)
+  then existsb (fun q => (go_out q =? 0) && (go_start q <=? go_start o) && (go_start o <=? go_ret q)) l
+  else true.
+Definition class_ok (o : gobs) : bool :=
+  if go_lens o then (go_out o =? 0) || (go_out o =? 2) else negb (go_out o =? 0) && negb (go_out o =? 2).
+Definition C16_concurrent_ok (l : list gobs) : bool :=
+  pairwise_apart l && forallb (refused_has_cause l) l && forallb class_ok l.
 
 (* ---------- timed histories of one collector object ---------- *)
 (* Calls in start order: start time, lengths equal?, how long the round takes if it is let
